@@ -11,12 +11,13 @@ namespace Pharmpy.C13
 
 theorem sep_regex_is_modelled : Generated.sepRegex = " *, *| *[\\t] *| +" := by decide
 theorem comment_regex_is_modelled :
-    Generated.commentAt = "^[ \\t]*[A-Za-z#@].*\\n" ∧ Generated.commentPrefix = "^[" ∧
-    Generated.commentSuffix = "].*\n" := by decide
+    Generated.commentAt = "^[ \\t]*[A-Za-z#@].*(\\n|$)" ∧ Generated.commentPrefix = "^[" ∧
+    Generated.commentSuffix = "].*(\\n|$)" ∧ Generated.commentEscaped = true := by decide
 theorem spacetab_blank_regex_is_modelled :
-    Generated.spaceTab = " \\t" ∧ Generated.blankLine = "^[ \\t]*\\n$" := by decide
+    Generated.spaceTab = " \\t" ∧ Generated.blankLine = "^[ \\t]*\\n" := by decide
 theorem short_regex_is_modelled :
-    Generated.shortRegex = "([+\\-]?)([^+\\-dD]*)([+-])([^+\\-dD]*)" := by decide
+    Generated.shortRegex = "([+\\-]?)([^+\\-dD]*)([+-])([^+\\-dD]*)" ∧
+    Generated.shortMatchFn = "fullmatch" := by decide
 theorem item_limit_is_modelled : Generated.itemLimit = itemLimit := by decide
 theorem special_columns_are_modelled :
     Generated.specialCols.map String.toList = timeName :: dateNames ∧
@@ -293,7 +294,9 @@ theorem short_form_value (m e : Str) (sg : Char) (hm : ∀ c ∈ m, isDig c = tr
       intro h; rcases h with h | h <;> simp at h
     have hshort : shortForm ((c0 :: m') ++ sg :: e) = some ((c0 :: m') ++ 'E' :: sg :: e) := by
       have : shortTry none ((c0 :: m') ++ sg :: e) = some ((c0 :: m') ++ 'E' :: sg :: e) := by
-        simp only [shortTry, twN.1, twN.2, hsgS, twE.1]
+        have hallN : e.all notSD = true := by
+          simpa using fun c hc => (isDig_props c (he c hc)).1
+        simp only [shortTry, twN.1, twN.2, hsgS, hallN]
         simp
       simp only [List.cons_append, shortForm, hc0.2.1]
       simpa using this
@@ -322,18 +325,230 @@ theorem short_form_value (m e : Str) (sg : Char) (hm : ∀ c ∈ m, isDig c = tr
     simp [hmk]
 
 
+/-- **fortran_number_sound** ("nothing else is accepted"). Whatever
+    `convert_fortran_number` accepts — through `float()`, the lone sign, the anchored
+    short form or the D → e replacement — is a number of the documented grammar, and
+    the value returned is the documented value. For every item text (modelled alphabet). -/
+theorem fortran_number_sound (s : Str) (v : Dec) (h : convertFortran s = .ok v) : specNumber s = some v := by
+  unfold convertFortran at h
+  cases hp : pyFloat s with
+  | some v' =>
+    simp only [hp] at h
+    injection h with h
+    subst h
+    exact pyFloat_spec s v' hp
+  | none =>
+    simp only [hp] at h
+    by_cases hl : (s = ['+'] ∨ s = ['-'])
+    · have hl' : (decide (s = ['+']) || decide (s = ['-'])) = true := by simpa using hl
+      rw [if_pos hl'] at h
+      injection h with h
+      subst h
+      unfold specNumber
+      rw [if_pos hl']
+    · have hl' : ¬ (decide (s = ['+']) || decide (s = ['-'])) = true := by simpa using hl
+      rw [if_neg hl'] at h
+      cases hs : shortForm s with
+      | some t =>
+        simp only [hs] at h
+        cases hpt : pyFloat t with
+        | some v' =>
+          simp only [hpt] at h
+          injection h with h
+          subst h
+          exact shortForm_sound s t v' hl hs hpt
+        | none => simp [hpt] at h
+      | none =>
+        simp only [hs] at h
+        by_cases hd : (s.any (fun c => c = 'D' || c = 'd')) = true
+        · rw [if_pos hd] at h
+          cases hpd : pyFloat (s.map replD) with
+          | some v' =>
+            simp only [hpd] at h
+            injection h with h
+            subst h
+            exact dBranch_sound s v' hl hpd
+          | none => simp [hpd] at h
+        · rw [if_neg hd] at h
+          simp at h
+
+/-- **fortran_number_complete.** Every documented number form (plain, E/e, D/d with any
+    signs, short form `m±e`, lone sign) is accepted with its documented value. -/
+theorem fortran_number_complete (s : Str) (v : Dec) (h : specNumber s = some v) : convertFortran s = .ok v := by
+  by_cases hl : (s = ['+'] ∨ s = ['-'])
+  · rcases hl with rfl | rfl
+    · have : v = ⟨false, 0, 0⟩ := by simp [specNumber] at h; exact h.symm
+      subst this; decide
+    · have : v = ⟨false, 0, 0⟩ := by simp [specNumber] at h; exact h.symm
+      subst this; decide
+  · have hl' : ¬ (decide (s = ['+']) || decide (s = ['-'])) = true := by simpa using hl
+    rw [specNumber_eq s hl] at h
+    obtain ⟨pre, hpre⟩ := takeSign_suffix s
+    have hpf := pyFloat_eq s
+    have hts_map := takeSign_map_fD s
+    -- how `shortForm` looks at the sign
+    have hshort : ∀ t, shortTry (if (takeSign s).1 then some '-' else none) (takeSign s).2 = some t →
+        (takeSign s).1 = true ∨ (∀ c r, (takeSign s).2 = c :: r → isSign c = false) → True := fun _ _ _ => trivial
+    clear hshort
+    generalize hneg : (takeSign s).1 = neg at h hpf hts_map
+    generalize hs1 : (takeSign s).2 = s1 at h hpf hts_map hpre
+    unfold specTail at h
+    cases hm : scanMant s1 with
+    | none => simp [hm] at h
+    | some t3 =>
+      obtain ⟨ip, fp, rest⟩ := t3
+      simp only [hm] at h
+      cases rest with
+      | nil =>
+        simp only [Option.some.injEq] at h
+        have : pyFloat s = some v := by
+          rw [hpf]; unfold pyTail; simp only [hm]; rw [h]
+        unfold convertFortran; simp only [this]
+      | cons x r =>
+        simp only at h
+        by_cases hxe : (decide (x = 'e') || decide (x = 'E')) = true
+        · -- E exponent: float() itself
+          have hx4 : (decide (x = 'e') || decide (x = 'E') || decide (x = 'd') || decide (x = 'D')) = true := by
+            simp only [Bool.or_eq_true] at hxe ⊢; exact Or.inl (Or.inl hxe)
+          rw [if_pos hx4] at h
+          have : pyFloat s = some v := by
+            rw [hpf]; unfold pyTail; simp only [hm]; rw [if_pos hxe]; exact h
+          unfold convertFortran; simp only [this]
+        · have hpnone : pyFloat s = none := by
+            rw [hpf]; unfold pyTail; simp only [hm]; rw [if_neg hxe]
+          by_cases hxd : (decide (x = 'd') || decide (x = 'D')) = true
+          · -- D exponent: the replacement branch
+            have hx4 : (decide (x = 'e') || decide (x = 'E') || decide (x = 'd') || decide (x = 'D')) = true := by
+              simp only [Bool.or_eq_true, decide_eq_true_eq] at hxd ⊢
+              rcases hxd with h1 | h1 <;> simp [h1]
+            rw [if_pos hx4] at h
+            cases he : scanExp r with
+            | none => simp [he] at h
+            | some e =>
+              simp only [he, Option.some.injEq] at h
+              obtain ⟨M, hM, _⟩ := scanMant_split s1 ip fp (x :: r) hm
+              have hxD : isDch x = true := by
+                simp only [Bool.or_eq_true, decide_eq_true_eq] at hxd
+                rcases hxd with h1 | h1 <;> simp [isDch, h1]
+              have hany : s.any isDch = true := by
+                rw [hpre, hM]; simp [List.any_append, hxD]
+              have hrx : replD x = 'e' := by
+                rcases fD_cases x with ⟨_, h1, h2⟩ | ⟨h1, _⟩
+                · simp only [Bool.or_eq_true, decide_eq_true_eq] at hxd
+                  rcases hxd with h3 | h3
+                  · exact absurd h3 h2
+                  · exact absurd h3 h1
+                · exact h1
+              have hpd : pyFloat (s.map replD) = some v := by
+                rw [pyFloat_eq, hts_map]
+                simp only
+                unfold pyTail
+                rw [scanMant_map_fD, hm]
+                simp only [Option.map_some, List.map_cons, hrx]
+                have hE : (decide True || decide ('e' = 'E')) = true := by decide
+                rw [if_pos hE, scanExp_map_fwd r e he]
+                dsimp only
+                rw [h]
+              unfold convertFortran
+              simp only [hpnone]
+              rw [if_neg hl', shortForm_none_of_D s hany]
+              simp only
+              have hany' : (s.any fun c => decide (c = 'D') || decide (c = 'd')) = true := hany
+              rw [if_pos hany', hpd]
+          · -- short form
+            have hx4 : ¬ (decide (x = 'e') || decide (x = 'E') || decide (x = 'd') || decide (x = 'D')) = true := by
+              simp only [Bool.or_eq_true, decide_eq_true_eq, not_or] at hxe hxd ⊢
+              exact ⟨⟨⟨hxe.1, hxe.2⟩, hxd.1⟩, hxd.2⟩
+            rw [if_neg hx4] at h
+            by_cases hsx : isSign x = true
+            · rw [if_pos hsx] at h
+              cases h1 : r.isEmpty with
+              | true => simp [h1] at h
+              | false =>
+                cases h2 : r.all isDig with
+                | false => simp [h1, h2] at h
+                | true =>
+                  simp only [h1, h2] at h
+                  simp only [Bool.not_true, Bool.or_false, Bool.false_eq_true, if_false, Option.some.injEq] at h
+                  obtain ⟨M, hM, hMn⟩ := scanMant_split s1 ip fp (x :: r) hm
+                  have hx' : x = '+' ∨ x = '-' := by simpa [isSign] using hsx
+                  have hxd1 : isDig x = false := by rcases hx' with rfl | rfl <;> decide
+                  have hxd2 : x ≠ '.' := by rcases hx' with rfl | rfl <;> decide
+                  have hmM : scanMant M = some (ip, fp, []) :=
+                    scanMant_of_append M x r ip fp hxd1 hxd2 (by rw [← hM]; exact hm)
+                  -- the text handed to float() and its value
+                  have hval := pyFloat_shortText neg M x r ip fp hMn hmM hsx h1 h2
+                  rw [h] at hval
+                  -- shortForm s
+                  have hsf : shortForm s = some ((if neg then ['-'] else []) ++ M ++ ['E', x] ++ r) := by
+                    cases s with
+                    | nil =>
+                      have : s1 = [] := by rw [← hs1]; simp [takeSign]
+                      rw [this] at hM; simp at hM
+                    | cons c0 r0 =>
+                      unfold shortForm
+                      dsimp only
+                      by_cases hsg : isSign c0 = true
+                      · have hc' : c0 = '+' ∨ c0 = '-' := by simpa [isSign] using hsg
+                        have hts : takeSign (c0 :: r0) = (decide (c0 = '-'), r0) := by
+                          rcases hc' with rfl | rfl <;> simp [takeSign]
+                        rw [hts] at hneg hs1
+                        simp only at hneg hs1
+                        rw [if_pos hsg, hs1, hM, shortTry_complete (some c0) M x r hMn hsx h2]
+                        simp only
+                        rcases hc' with rfl | rfl <;> simp [← hneg]
+                      · have hsg' : isSign c0 = false := by simpa using hsg
+                        rw [takeSign_not_sign c0 r0 hsg'] at hneg hs1
+                        simp only at hneg hs1
+                        simp only [hsg']
+                        rw [hs1, hM, shortTry_complete none M x r hMn hsx h2]
+                        simp [← hneg]
+                  unfold convertFortran
+                  simp only [hpnone]
+                  rw [if_neg hl', hsf]
+                  simp only [hval]
+            · rw [if_neg hsx] at h
+              simp at h
+
+
+/-- **fortran_number_spec.** `convert_fortran_number` (after fix d532311) accepts exactly the
+    documented number grammar, with the documented value: for every item text. -/
+theorem fortran_number_spec (s : Str) (v : Dec) : convertFortran s = .ok v ↔ specNumber s = some v :=
+  ⟨fortran_number_sound s v, fortran_number_complete s v⟩
+
+/-- everything outside the documented grammar is refused -/
+theorem fortran_number_rejects (s : Str) : convertFortran s = .error .valueError ↔ specNumber s = none := by
+  constructor
+  · intro h
+    cases hs : specNumber s with
+    | none => rfl
+    | some v =>
+      have := fortran_number_complete s v hs
+      rw [h] at this
+      cases this
+  · intro h
+    cases hc : convertFortran s with
+    | ok v =>
+      have := fortran_number_sound s v hc
+      rw [h] at this
+      cases this
+    | error e => cases e; rfl
+
 /-- a lone sign is 0 -/
 theorem lone_sign_zero :
     convertFortran ['+'] = .ok ⟨false, 0, 0⟩ ∧ convertFortran ['-'] = .ok ⟨false, 0, 0⟩ := by decide
 
-/-- The full statement `convertFortran s = ok v ↔ specNumber s = some v` is false of the
-    code in both directions. -/
-theorem signed_d_rejected_witness :
-    convertFortran "-5D1".toList = .error .valueError ∧ specNumber "-5D1".toList = some ⟨true, 5, 1⟩ := by
+/-- (fixed d532311) a D exponent after a signed mantissa is read; before the fix the
+    unanchored short-form match took the leading sign for the exponent sign. -/
+theorem signed_d_accepted :
+    convertFortran "-5D1".toList = .ok ⟨true, 5, 1⟩ ∧ specNumber "-5D1".toList = some ⟨true, 5, 1⟩ ∧
+    convertFortran "+1d-3".toList = .ok ⟨false, 1, -3⟩ := by
   decide
 
-theorem malformed_accepted_witness :
-    convertFortran "2-1-3".toList = .ok ⟨false, 2, -1⟩ ∧ specNumber "2-1-3".toList = none := by
+/-- (fixed d532311) text after a short-form number is no longer ignored -/
+theorem malformed_rejected :
+    convertFortran "2-1-3".toList = .error .valueError ∧ specNumber "2-1-3".toList = none ∧
+    convertFortran "2-1D5".toList = .error .valueError := by
   decide
 
 /-- non-vacuity of `short_form_value`: its hypotheses hold for `25-13` -/
@@ -345,19 +560,54 @@ example : convertFortran "2-1".toList = .ok ⟨false, 2, -1⟩ ∧ convertFortra
 
 /-! ## NMTRANDataIO -/
 
-/-- A single blank line between data rows is not reported (the regexp
-    `^[ \t]*\n$` needs the end of the text or a second newline after it), and
-    pandas then skips it. Two blank lines, or one at the end, are reported. -/
+/-- (fixed 8ee6a73) a blank newline-terminated line is reported wherever it is -/
+theorem blank_line_reported (ic : Char) (contents : Str) (lines : List Str)
+    (h : prefilter ic contents = .ok lines) : ∀ l ∈ keptTerm ic contents, isBlankLine l = false := by
+  unfold prefilter at h
+  by_cases h1 : ((keptTerm ic contents).any (fun l => !noSpTab l) || !noSpTab (keptLast ic contents)) = true
+  · simp [h1] at h
+  · by_cases h2 : blankHit (keptTerm ic contents) = true
+    · simp [h1, h2] at h
+    · intro l hl
+      have h2' : (keptTerm ic contents).any isBlankLine = false := by simpa [blankHit] using h2
+      have := List.any_eq_false.mp h2' l hl
+      simpa using this
+
 theorem blank_line_witness :
-    prefilter '#' "1,2\n\n4,3\n".toList = .ok ["1,2".toList, [], "4,3".toList] ∧
-    prefilter '#' "1,2\n\n\n4,3\n".toList = .error .blankLine ∧
+    prefilter '#' "1,2\n\n4,3\n".toList = .error .blankLine ∧
+    prefilter '#' "1,2\n  \n4,3\n".toList = .error .blankLine ∧
     prefilter '#' "1,2\n4,3\n\n".toList = .error .blankLine := by decide
 
-/-- comment lines: IGNORE=c removes newline-terminated lines starting with c;
-    an unterminated last line is kept. -/
+/-- comment lines: IGNORE=c removes the lines starting with c — also an unterminated
+    last line (fixed 82e4d59) and for a regex meta character (fixed 0a05222). -/
 theorem comment_line_witness :
     prefilter '#' "#h\n1,2\n#x\n".toList = .ok ["1,2".toList] ∧
-    prefilter '#' "1,2\n#x".toList = .ok ["1,2".toList, "#x".toList] ∧
+    prefilter '#' "1,2\n#x".toList = .ok ["1,2".toList] ∧
+    prefilter '^' "^h\n1,2\n".toList = .ok ["1,2".toList] ∧
     prefilter '@' " ID,DV\n1,2\n".toList = .ok ["1,2".toList] := by decide
+
+/-- no comment line survives the prefilter (terminated or not) -/
+theorem comment_lines (ic : Char) (contents : Str) (lines : List Str)
+    (h : prefilter ic contents = .ok lines) : ∀ l ∈ lines, isComment ic l = false := by
+  unfold prefilter at h
+  by_cases h1 : ((keptTerm ic contents).any (fun l => !noSpTab l) || !noSpTab (keptLast ic contents)) = true
+  · simp [h1] at h
+  · by_cases h2 : blankHit (keptTerm ic contents) = true
+    · simp [h1, h2] at h
+    · simp only [h1, h2] at h
+      injection h with h
+      intro l hl
+      rw [← h] at hl
+      rcases List.mem_append.mp hl with h3 | h3
+      · have := (List.mem_filter.mp h3).2
+        simpa using this
+      · by_cases he : (keptLast ic contents).isEmpty = true
+        · simp [he] at h3
+        · have h4 : l = keptLast ic contents := by simpa [he] using h3
+          subst h4
+          unfold keptLast at he ⊢
+          by_cases hc : isComment ic ((splitNl contents).getLast?.getD []) = true
+          · simp [hc] at he
+          · simpa [hc] using hc
 
 end Pharmpy.C13
